@@ -319,8 +319,11 @@ pub fn run_lace(p: &Prog, script: &str, input: &[u8], fuel: u64) -> Session {
     // input (read line by line into the reader's buffer) instead of through `--command` (slices of
     // one string): the two transports mean the same (C14), so every debugger property is exercised
     // over both
-    // (only for programs without an input trap: program and debugger share standard input)
-    let reads_input = p.img.words.iter().any(|w| matches!(*w, 0xF020 | 0xF023));
+    // (only for programs without an input trap: program and debugger share standard input. The
+    // callers have followed the session in the reference model first and dropped it if an input
+    // trap ran - also one that the script or the program wrote into memory; this scan of the
+    // image, which ignores the unused bits 11:8 of a TRAP, is a second line of defence)
+    let reads_input = p.img.words.iter().any(|w| matches!(*w & 0xF0FF, 0xF020 | 0xF023));
     if input.is_empty() && !reads_input && crate::engine::hash_of(&(script, "transport")) % 3 == 0 && !script.contains('\0') {
         let mut stdin = script.as_bytes().to_vec();
         stdin.push(b'\n');
